@@ -84,7 +84,7 @@ Hypothesis G_root : G doc_root.
 Lemma ancestor_fuel_ok : forall fuel i, G i -> (N.to_nat i < fuel)%nat ->
   is_ok (ancestor_fuel doc fuel i) (Forall G).
 Proof.
-  induction fuel as [|f IH]; intros i Gi Hlt; [lia|]. cbn [ancestor_fuel].
+  induction fuel as [|f IH]; intros i Gi Hlt; [lia|]. cbn [ancestor_fuel]. unfold xp_parent.
   destruct (parent_node doc i) as [p|] eqn:Ep.
   - destruct (wf_parent doc Hwf i p (G_valid i Gi) Ep) as [Vp Hpi].
     assert (Gp : G p) by (eapply G_parent; eauto).
@@ -106,12 +106,17 @@ Proof.
   intros l Hl. exists (i :: l). split; [reflexivity|constructor; assumption].
 Qed.
 
+Lemma xp_child_incl i c : In c (xp_child doc i) -> In c (child_nodes doc i).
+Proof.
+  unfold xp_child. destruct (kind doc i); try (intros H; apply filter_In in H; apply H). intros [].
+Qed.
+
 (** ** descendants: the depth is bounded because children come after their parent *)
 Lemma descendant_fuel_ok : forall fuel i, G i -> (length doc - N.to_nat i < fuel)%nat ->
   is_ok (descendant_fuel doc fuel i) (Forall G).
 Proof.
   induction fuel as [|f IH]; intros i Gi Hlt; [lia|]. cbn [descendant_fuel].
-  apply flat_map_res_ok. intros c Hc.
+  apply flat_map_res_ok. intros c Hc. apply xp_child_incl in Hc.
   destruct (wf_children doc Hwf i c (G_valid i Gi) Hc) as [Vc Hic].
   assert (Gc : G c) by (eapply G_children; eauto).
   apply (is_ok_bind _ _ (Forall G)).
@@ -247,20 +252,39 @@ Proof.
   exists r. split; [exact Er|]. eapply Forall_impl; [|exact Hr]. exact HLG.
 Qed.
 
+Lemma not_doctype_G l : Forall G l -> Forall G (not_doctype doc l).
+Proof.
+  intros H. apply Forall_forall. intros x Hx. rewrite Forall_forall in H. apply H.
+  unfold not_doctype in Hx. apply filter_In in Hx. apply Hx.
+Qed.
+
 Lemma following_sibling_ok i : G i -> is_ok (following_sibling doc i) (Forall G).
-Proof. intros Gi. exact (sibling_axis_ok false i Gi). Qed.
+Proof.
+  intros Gi. unfold following_sibling. destruct (sibling_axis_ok false i Gi) as [l [El Hl]].
+  cbn beta iota in El. rewrite El. cbn [bind]. eexists. split; [reflexivity|apply not_doctype_G; exact Hl].
+Qed.
 
 Lemma preceding_sibling_ok i : G i -> is_ok (preceding_sibling doc i) (Forall G).
-Proof. intros Gi. exact (sibling_axis_ok true i Gi). Qed.
+Proof.
+  intros Gi. unfold preceding_sibling. destruct (sibling_axis_ok true i Gi) as [l [El Hl]].
+  cbn beta iota in El. rewrite El. cbn [bind]. eexists. split; [reflexivity|apply not_doctype_G; exact Hl].
+Qed.
 
 Lemma following_ok i : G i -> is_ok (following doc i) (Forall G).
 Proof.
   intros Gi. unfold following.
+  apply (is_ok_bind _ _ (Forall G)).
+  { destruct (kind doc i); try (eexists; split; [reflexivity|constructor]).
+    unfold xp_parent. destruct (parent_node doc i) as [owner|] eqn:Ep; [|eexists; split; [reflexivity|constructor]].
+    apply descendant_ok. eapply G_parent; eauto. }
+  intros pre Hpre.
   apply (is_ok_bind _ _ (Forall G)); [apply ancestor_and_self_ok; exact Gi|].
-  intros al Hal. apply flat_map_res_ok. intros a Ha.
-  rewrite Forall_forall in Hal.
-  apply (is_ok_bind _ _ (Forall G)); [apply following_sibling_ok; apply Hal; exact Ha|].
-  intros sl Hsl. apply descendant_and_self_all_ok. exact Hsl.
+  intros al Hal.
+  apply (is_ok_bind _ _ (Forall G)).
+  { apply flat_map_res_ok. intros a Ha. rewrite Forall_forall in Hal.
+    apply (is_ok_bind _ _ (Forall G)); [apply following_sibling_ok; apply Hal; exact Ha|].
+    intros sl Hsl. apply descendant_and_self_all_ok. exact Hsl. }
+  intros rest Hrest. eexists. split; [reflexivity|]. apply Forall_app. split; assumption.
 Qed.
 
 Lemma preceding_ok i : G i -> is_ok (preceding doc i) (Forall G).
@@ -291,19 +315,20 @@ Proof.
     + apply ancestor_and_self_ok; exact Gi.
     + eexists; split; [reflexivity|]. apply Forall_forall. intros x Hx. eapply G_attrs; eauto.
     + eexists; split; [reflexivity|]. apply Forall_forall. intros x Hx. eapply G_children; eauto.
+      apply xp_child_incl. exact Hx.
     + apply descendant_ok; exact Gi.
     + apply descendant_and_self_ok; exact Gi.
     + apply following_ok; exact Gi.
     + apply following_sibling_ok; exact Gi.
     + eexists; split; [reflexivity|].
-      destruct (parent_node doc i) as [p|] eqn:Ep; cbn [opt_list]; repeat constructor.
+      unfold xp_parent. destruct (parent_node doc i) as [p|] eqn:Ep; cbn [opt_list]; repeat constructor.
       eapply G_parent; eauto.
     + apply preceding_ok; exact Gi.
     + apply preceding_sibling_ok; exact Gi.
     + eexists; split; [reflexivity|]. repeat constructor. exact Gi.
   - destruct (str_eqb s s_at); eexists; (split; [reflexivity|]); apply Forall_forall; intros x Hx.
     + eapply G_attrs; eauto.
-    + eapply G_children; eauto.
+    + eapply G_children; eauto. apply xp_child_incl. exact Hx.
 Qed.
 
 (** ** string-values and lang() *)
@@ -344,19 +369,34 @@ Qed.
 Lemma string_value_ok i : valid doc i -> exists s, string_value doc i = Ok s.
 Proof. intros Vi. apply string_value_fuel_ok; [exact Vi|]. unfold nav_fuel. lia. Qed.
 
+Lemma find_xml_lang_ok l : Forall (valid doc) l ->
+  exists o, find_xml_lang doc l = Ok o /\ match o with Some a => In a l | None => True end.
+Proof.
+  induction l as [|a t IH]; intros H; cbn [find_xml_lang]; [exists None; split; [reflexivity|exact I]|].
+  inversion H as [|a' t' Va Vt]; subst. destruct (IH Vt) as [o [Eo Ho]].
+  assert (Hrest : exists o', find_xml_lang doc t = Ok o' /\ match o' with Some b => In b (a :: t) | None => True end).
+  { exists o. split; [exact Eo|]. destruct o; [right; exact Ho|exact I]. }
+  pose proof (wf_name doc Hwf a Va) as Hn. unfold name_of.
+  destruct (n_name (getd doc a)) as [| |local prefix uri]; [exact Hrest|contradiction|].
+  destruct prefix as [p|]; [|exact Hrest].
+  destruct (str_eqb local fn_lang && str_eqb p s_xml); [|exact Hrest].
+  exists (Some a). split; [reflexivity|left; reflexivity].
+Qed.
+
 Lemma lang_fuel_ok name : forall fuel i, valid doc i -> (N.to_nat i < fuel)%nat ->
   exists b, lang_fuel doc fuel name (Some i) = Ok b.
 Proof.
   induction fuel as [|f IH]; intros i Vi Hlt; [lia|]. cbn [lang_fuel].
-  destruct (nkind_eqb (kind doc i) KElement); [|eexists; reflexivity].
-  assert (Hup : exists b, lang_fuel doc f name (parent_node doc i) = Ok b).
-  { destruct (parent_node doc i) as [p|] eqn:Ep.
-    - destruct (wf_parent doc Hwf i p Vi Ep) as [Vp Hpi]. apply IH; [exact Vp|lia].
-    - destruct f; cbn [lang_fuel]; eexists; reflexivity. }
-  destruct (find _ (attributes doc i)) as [a|] eqn:Ef; [|exact Hup].
-  apply find_some in Ef. destruct Ef as [Ha _].
-  destruct (data_res_ok (n_data (getd doc a)) (wf_data doc Hwf a (wf_attrs doc Hwf i a Vi Ha))) as [v Ev].
-  rewrite Ev. cbn [bind]. destruct (str_eqb v name); [eexists; reflexivity|exact Hup].
+  assert (Hattrs : Forall (valid doc) (attributes doc i)).
+  { apply Forall_forall. intros a Ha. apply (wf_attrs doc Hwf i a Vi Ha). }
+  destruct (find_xml_lang_ok (attributes doc i) Hattrs) as [o [-> Ho]]. cbn [bind].
+  destruct o as [a|].
+  - rewrite Forall_forall in Hattrs.
+    destruct (data_res_ok (n_data (getd doc a)) (wf_data doc Hwf a (Hattrs a Ho))) as [v ->].
+    cbn [bind]. eexists; reflexivity.
+  - unfold xp_parent. destruct (parent_node doc i) as [p|] eqn:Ep.
+    + destruct (wf_parent doc Hwf i p Vi Ep) as [Vp Hpi]. apply IH; [exact Vp|lia].
+    + destruct f; cbn [lang_fuel]; eexists; reflexivity.
 Qed.
 
 End Nav.
